@@ -15,13 +15,14 @@ import (
 // C13 — no remote input panics or wedges the accessory.
 
 type c13Input struct {
-	State    string `json:"state"`    // fresh | setup-M1 | setup-M3 | verify-M1 | verified
-	Method   string `json:"method"`   // HTTP method
-	Path     string `json:"path"`     // endpoint (+ query)
-	CType    string `json:"ctype"`    //
-	Body     []byte `json:"body"`     //
-	Class    string `json:"class"`    // input class (for signatures)
-	BodyDesc string `json:"bodydesc"` // human description
+	State    string `json:"state"`         // fresh | setup-M1 | setup-M3 | verify-M1 | verified
+	Method   string `json:"method"`        // HTTP method
+	Path     string `json:"path"`          // endpoint (+ query)
+	CType    string `json:"ctype"`         //
+	Body     []byte `json:"body"`          //
+	Class    string `json:"class"`         // input class (for signatures)
+	BodyDesc string `json:"bodydesc"`      // human description
+	Dyn      string `json:"dyn,omitempty"` // body built after the state is reached, sealed under the exchange's real key
 }
 
 var c13States = []string{"fresh", "setup-M1", "setup-M3", "verify-M1", "verified"}
@@ -186,7 +187,7 @@ type c13Ctx struct {
 
 func (x *c13Ctx) bed() *bed {
 	if x.b == nil {
-		b, err := newBed(x.c, bedOpt{Seed: []refctl.Identity{idL}, Snapshot: true})
+		b, err := newBed(x.c, bedOpt{Seed: []refctl.Identity{idL, idShortKey, idKeyless}, Snapshot: true})
 		if err != nil {
 			x.c.Infra("bed: " + err.Error())
 			return nil
@@ -287,7 +288,10 @@ func c13Exec(x *c13Ctx, in c13Input) {
 		c.Report(sym+"/"+sigTail, fmt.Sprintf("state %s, %s %s, input %s: %s", in.State, in.Method, in.Path, in.Class, desc), in)
 	}
 	world.ResetCapture()
-	k, _, _, err := x.reach(in.State)
+	k, rs, rv, err := x.reach(in.State)
+	if err == nil && in.Dyn != "" {
+		in.Body = c13DynBody(in.Dyn, rs, rv)
+	}
 	if err != nil {
 		if k != nil {
 			k.Close()
@@ -353,6 +357,69 @@ func c13Exec(x *c13Ctx, in c13Input) {
 	}
 }
 
+// c13DynBody builds messages that ARE correctly sealed under the key of the running exchange (so that they get
+// past decryption) but carry a malformed signed sub-TLV.
+func c13DynBody(dyn string, s *refctl.Setup, v *refctl.Verify) []byte {
+	parts := strings.SplitN(dyn, ":", 2)
+	variant := parts[1]
+	sub := func(id string, ltpk, sig []byte) []byte {
+		var items []refctl.Item
+		if id != "<none>" {
+			items = append(items, refctl.T(refctl.TagIdentifier, []byte(id)))
+		}
+		if ltpk != nil {
+			items = append(items, refctl.T(refctl.TagPublicKey, ltpk))
+		}
+		if sig != nil {
+			items = append(items, refctl.T(refctl.TagSignature, sig))
+		}
+		return refctl.TLVEncode(items...)
+	}
+	var body []byte
+	switch variant {
+	case "ltpk-0":
+		body = sub("someone", []byte{}, pat(64, 1))
+	case "ltpk-31":
+		body = sub("someone", pat(31, 2), pat(64, 1))
+	case "ltpk-33":
+		body = sub("someone", pat(33, 2), pat(64, 1))
+	case "ltpk-missing":
+		body = sub("someone", nil, pat(64, 1))
+	case "sig-0":
+		body = sub(idL.ID, idL.Pub, []byte{})
+	case "sig-63":
+		body = sub(idL.ID, idL.Pub, pat(63, 3))
+	case "sig-65":
+		body = sub(idL.ID, idL.Pub, pat(65, 3))
+	case "sig-missing":
+		body = sub(idL.ID, idL.Pub, nil)
+	case "id-missing":
+		body = sub("<none>", idL.Pub, pat(64, 3))
+	case "id-300":
+		body = sub(strings.Repeat("i", 300), idL.Pub, pat(64, 3))
+	case "name-shortkey-entity":
+		body = sub(idShortKey.ID, nil, pat(64, 4))
+	case "name-keyless-entity":
+		body = sub(idKeyless.ID, nil, pat(64, 4))
+	case "empty":
+		body = nil
+	case "garbage":
+		body = pat(70, 9)
+	case "truncated":
+		body = sub(idL.ID, idL.Pub, pat(64, 3))
+		body = body[:len(body)-5]
+	}
+	if parts[0] == "M5-sealed" && s != nil && s.EncKey != nil {
+		return refctl.M5Sealed(s.EncKey, body)
+	}
+	if parts[0] == "M3-sealed" && v != nil && v.EncKey != nil {
+		return refctl.VerifyM3Sealed(v.EncKey, body)
+	}
+	return refctl.TLVEncode(refctl.T(refctl.TagState, []byte{5}))
+}
+
+var c13DynVariants = []string{"ltpk-0", "ltpk-31", "ltpk-33", "ltpk-missing", "sig-0", "sig-63", "sig-65", "sig-missing", "id-missing", "id-300", "name-shortkey-entity", "name-keyless-entity", "empty", "garbage", "truncated"}
+
 func c13Inputs(b *bed, thorough bool) []c13Input {
 	var out []c13Input
 	aid, iid := b.Brightness()
@@ -374,6 +441,10 @@ func c13Inputs(b *bed, thorough bool) []c13Input {
 		"add":    refctl.TLVEncode(refctl.T(refctl.TagState, []byte{1}), refctl.T(refctl.TagMethod, []byte{3}), refctl.T(refctl.TagIdentifier, []byte("someone")), refctl.T(refctl.TagPublicKey, idX.Pub), refctl.T(refctl.TagPermission, []byte{0})),
 		"remove": refctl.TLVEncode(refctl.T(refctl.TagState, []byte{1}), refctl.T(refctl.TagMethod, []byte{4}), refctl.T(refctl.TagIdentifier, []byte("someone"))),
 		"list":   refctl.TLVEncode(refctl.T(refctl.TagState, []byte{1}), refctl.T(refctl.TagMethod, []byte{5})),
+	}
+	for _, vr := range c13DynVariants {
+		out = append(out, c13Input{State: "setup-M3", Method: "POST", Path: "/pair-setup", CType: refctl.CTPairing, Dyn: "M5-sealed:" + vr, Class: "M5-correctly-sealed:" + vr})
+		out = append(out, c13Input{State: "verify-M1", Method: "POST", Path: "/pair-verify", CType: refctl.CTPairing, Dyn: "M3-sealed:" + vr, Class: "M3-correctly-sealed:" + vr})
 	}
 	for _, st := range c13States {
 		for name, msg := range setupMsgs {
@@ -468,7 +539,7 @@ func init() {
 	fw.Register(&fw.Check{
 		ID:    "C13",
 		Level: "exploration",
-		Rule:  "for every protocol state reachable by a prefix of a correct exchange (fresh connection; pair-setup after M1 and after a right-code M3; pair-verify after M1; verified encrypted session) × every endpoint (/pair-setup, /pair-verify, /pairings, /characteristics GET+PUT, /accessories, /resource, /identify, unknown paths and methods) an input alphabet derived mechanically from the correct next messages: empty body, every prefix, every item removed / duplicated / re-tagged, item lengths 0,1,255,256,300, encrypted payloads of length 0..17 and with each of the 16 tag bytes flipped, method and state bytes 0..255, garbage; JSON bodies with wrong types per field, 1e999, -0, 2^64, nesting depth 10000 / 100000, duplicate keys, 1 MiB string, 5000 entries, invalid UTF-8; malformed id queries. Real transport over TCP. Oracle per input: no handler panic (net/http's panic log, attributed by remote address), a well-formed HTTP response (any status) instead of a dropped connection, then a correct pair-verify on the SAME connection after at most one rejected start (or, on a verified connection, a further encrypted request), and a correct handshake + read + write on a NEW connection. distinct_nontrivial = distinct (endpoint, state, status) classes",
+		Rule:  "for every protocol state reachable by a prefix of a correct exchange (fresh connection; pair-setup after M1 and after a right-code M3; pair-verify after M1; verified encrypted session) × every endpoint (/pair-setup, /pair-verify, /pairings, /characteristics GET+PUT, /accessories, /resource, /identify, unknown paths and methods) an input alphabet derived mechanically from the correct next messages: empty body, every prefix, every item removed / duplicated / re-tagged, item lengths 0,1,255,256,300, encrypted payloads of length 0..17 and with each of the 16 tag bytes flipped, key-exchange / finish messages CORRECTLY sealed under the running exchange's key but with malformed signed sub-TLVs (key and signature lengths 0/31/33/63/65, missing items, names of stored entities with a short or no key), method and state bytes 0..255, garbage; JSON bodies with wrong types per field, 1e999, -0, 2^64, nesting depth 10000 / 100000, duplicate keys, 1 MiB string, 5000 entries, invalid UTF-8; malformed id queries. Real transport over TCP. Oracle per input: no handler panic (net/http's panic log, attributed by remote address), a well-formed HTTP response (any status) instead of a dropped connection, then a correct pair-verify on the SAME connection after at most one rejected start (or, on a verified connection, a further encrypted request), and a correct handshake + read + write on a NEW connection. distinct_nontrivial = distinct (endpoint, state, status) classes",
 		Run:   c13Run,
 		Replay: func(c *fw.Ctx, raw json.RawMessage) {
 			var in c13Input
